@@ -132,6 +132,10 @@ Theorem difference_leaves : forall x y, sorted_cu x -> sorted_cu y ->
 Proof. exact C11_SetOps.difference_spec. Qed.
 Print Assumptions difference_leaves.
 
+Theorem difference_normal : forall x y, normal x -> sorted_cu y -> normal (cu_FromDifference x y).
+Proof. exact C11_SetOps.difference_normal. Qed.
+Print Assumptions difference_normal.
+
 Theorem intersection_leaves : forall x y, sorted_cu x -> sorted_cu y ->
   normal (cu_FromIntersection x y) /\
   forall t, leaf t -> (cov (cu_FromIntersection x y) t <-> cov x t /\ cov y t).
